@@ -54,6 +54,9 @@ func buildUniverse(root string) {
 	wr("A/x/sub/f2", 0)
 	wr("A/x/sub.txt", 2)
 	wr("A/x/sub-old/k", 1)
+	wr("A/x/notes..txt", 4)
+	wr("A/x/v1..v2/d...p", 2)
+	wr("A/x/sub\\f2", 6) // one name with a backslash in it
 	wr("A/y.txt", 7)
 	mk("B/x")
 	wr("B/x/f1", 5)
@@ -129,7 +132,8 @@ func ScanCheck(args []string) {
 			if i > 0 && m.Items[i-1].RelPath > it.RelPath {
 				res.AddViolation(map[string]any{"kind": "manifest_not_sorted"}, replay)
 			}
-			if strings.Contains(it.RelPath, "\\") || strings.HasPrefix(it.RelPath, "/") {
+			// (a backslash may be part of a name on this platform: the universe has one such file)
+			if strings.HasPrefix(it.RelPath, "/") {
 				res.AddViolation(map[string]any{"kind": "rel_path_not_slash_separated_relative"}, replay)
 			}
 		}
